@@ -99,6 +99,81 @@ impl<T: CircuitField + Ord> Circuit<T> for OpCircuit<T> {
         let p = |i: usize| T::from(self.params[i]);
         let pu = |i: usize| self.params[i] as usize;
         let mut outs: Vec<Out<T>> = vec![];
+        if self.op.starts_with("vec_") {
+            // params: [shape, n, l, d_1..d_l, (l2, e_1..e_l2)]; the vectors are private inputs (they cannot be exposed)
+            use midnight_circuits::vec::{vector_gadget::VectorGadget, AssignedVector};
+            let vg = VectorGadget::new(&ng);
+            let lv = pu(2);
+            let data: Vec<T> = (0..lv).map(|i| p(3 + i)).collect();
+            let second: Vec<T> = if self.params.len() > 3 + lv {
+                let l2 = pu(3 + lv);
+                (0..l2).map(|i| p(4 + lv + i)).collect()
+            } else {
+                vec![]
+            };
+            let val = |d: &Vec<T>| if self.known { Value::known(d.clone()) } else { Value::unknown() };
+            macro_rules! shape {
+                ($m:expr, $a:expr, $l2:expr) => {{
+                    let v: AssignedVector<T, AssignedNative<T>, $m, $a> = vg.assign_with_filler(&mut l, val(&data), Some(T::from(7u64)))?;
+                    let expose_info = |l: &mut _, v: &AssignedVector<T, AssignedNative<T>, $m, $a>, outs: &mut Vec<Out<T>>| -> Result<(), Error> {
+                        let (st, en) = vg.get_limits(l, v)?;
+                        outs.push(Out::N(st));
+                        outs.push(Out::N(en));
+                        for b in vg.padding_flag(l, v)? {
+                            outs.push(Out::B(b));
+                        }
+                        Ok(())
+                    };
+                    match self.op.as_str() {
+                        "vec_only" => {}
+                        "vec_only2" => {
+                            let _w: AssignedVector<T, AssignedNative<T>, $m, $a> = vg.assign_with_filler(&mut l, val(&second), Some(T::from(9u64)))?;
+                        }
+                        "vec_only2r" => {
+                            let _w: AssignedVector<T, AssignedNative<T>, $l2, $a> = vg.assign_with_filler(&mut l, val(&second), Some(T::from(9u64)))?;
+                        }
+                        "vec_info" => expose_info(&mut l, &v, &mut outs)?,
+                        "vec_trim" => {
+                            let w: AssignedVector<T, AssignedNative<T>, $m, $a> = vg.assign_with_filler(&mut l, val(&second), Some(T::from(9u64)))?;
+                            let t = vg.trim_beginning(&mut l, &v, pu(1))?;
+                            expose_info(&mut l, &t, &mut outs)?;
+                            outs.push(Out::B(vg.is_equal(&mut l, &t, &w)?));
+                        }
+                        "vec_trim_only" => {
+                            // the trim alone (nothing downstream re-checks the length)
+                            let _t = vg.trim_beginning(&mut l, &v, pu(1))?;
+                        }
+                        "vec_eq" => {
+                            let w: AssignedVector<T, AssignedNative<T>, $m, $a> = vg.assign_with_filler(&mut l, val(&second), Some(T::from(9u64)))?;
+                            outs.push(Out::B(vg.is_equal(&mut l, &v, &w)?));
+                        }
+                        "vec_resize" => {
+                            let w: AssignedVector<T, AssignedNative<T>, $l2, $a> = vg.assign_with_filler(&mut l, val(&second), Some(T::from(9u64)))?;
+                            let t: AssignedVector<T, AssignedNative<T>, $l2, $a> = vg.resize(&mut l, v)?;
+                            let (st, en) = vg.get_limits(&mut l, &t)?;
+                            outs.push(Out::N(st));
+                            outs.push(Out::N(en));
+                            for b in vg.padding_flag(&mut l, &t)? {
+                                outs.push(Out::B(b));
+                            }
+                            outs.push(Out::B(vg.is_equal(&mut l, &t, &w)?));
+                        }
+                        other => return Err(Error::Synthesis(format!("unknown op {other}"))),
+                    }
+                }};
+            }
+            match pu(0) {
+                0 => shape!(8, 2, 12),
+                _ => shape!(12, 4, 16),
+            }
+            for o in outs.iter() {
+                match o {
+                    Out::N(x) => ng.constrain_as_public_input(&mut l, x)?,
+                    Out::B(b) => ng.constrain_as_public_input(&mut l, b)?,
+                }
+            }
+            return ng.load_from_scratch(&mut l);
+        }
         match self.op.as_str() {
             "add" => outs.push(Out::N(ng.add(&mut l, &ns[0], &ns[1])?)),
             "sub" => outs.push(Out::N(ng.sub(&mut l, &ns[0], &ns[1])?)),
@@ -328,7 +403,20 @@ fn run_scenarios<T: CircuitField + Ord + ff::FromUniformBytes<64>>(scen: &[J], p
             "status":base.status,"exposed":base.exposed,"nassign":base.nassign,"detail":base.detail})).unwrap();
         if let Some(faults) = sc["faults"].as_array() {
             let maxi = sc["max_index"].as_u64().unwrap_or(1_000_000) as usize;
-            for i in 0..base.nassign.min(maxi) {
+            // vectors are private inputs: faults start after their own assignments
+            let min_index = if op.starts_with("vec_") {
+                let mut only = OpCircuit::<T>::new("vec_only", &params, &ins);
+                if op == "vec_eq" || op == "vec_trim" {
+                    only.op = "vec_only2".into();
+                }
+                if op == "vec_resize" {
+                    only.op = "vec_only2r".into();
+                }
+                run_once(&only, k, None).nassign
+            } else {
+                0
+            };
+            for i in min_index..base.nassign.min(min_index + maxi) {
                 for f in faults {
                     let fs = f.as_str().unwrap();
                     let r = run_once(&c, k, Some((i, fault_of(fs))));
